@@ -315,6 +315,17 @@ func fatScenarios(cfg fatCfg, oracle string, depth int, quick bool) []*fatScen {
 		{Kind: "remove", Path: "D/F.BIN"}, {Kind: "remove", Path: "D/prefilled-long-name-07.dat"}, {Kind: "remove", Path: "D/prefilled-long-name-14.dat"}, {Kind: "remove", Path: "D/E"}, {Kind: "remove", Path: "D"}, {Kind: "remove", Path: "N/sub"}, {Kind: "remove", Path: "N"},
 		W("D/prefilled-long-name-03.dat", "0", "c+1"), {Kind: "reopen"}}
 	out = append(out, &fatScen{Name: "dirs", Cfg: cfg, Prefix: pre, Letters: ld, Depth: depth, Oracle: oracle})
+	// tails: five long names sharing one 8.3 stem, two of them removed again, so that the numeric tails in use have gaps
+	// (~1 ~3 ~5): the next aliases must be chosen the same way every time and must never collide
+	var pt []fsOp
+	for i := 1; i <= 5; i++ {
+		pt = append(pt, W(fmt.Sprintf("longfilename%d.txt", i), "0", fmt.Sprint(i)))
+	}
+	pt = append(pt, fsOp{Kind: "remove", Path: "longfilename2.txt"}, fsOp{Kind: "remove", Path: "longfilename4.txt"})
+	lt := []fsOp{{Kind: "create", Path: "longfilename6.txt"}, {Kind: "create", Path: "longfilename7.txt"}, W("longfilename8.txt", "0", "9"), {Kind: "remove", Path: "longfilename3.txt"},
+		{Kind: "rename", Path: "longfilename5.txt", Path2: "longfilename9.txt"}, {Kind: "rename", Path: "longfilename1.txt", Path2: "longfilename6.txt"}, W("longfilename6.txt", "0", "7"), {Kind: "reopen"}}
+	out = append(out, &fatScen{Name: "tails", Cfg: cfg, Prefix: pt, Letters: lt, Depth: depth, Oracle: oracle})
+
 	return out
 }
 
